@@ -5,14 +5,6 @@ import BioCantor.Proofs.AlgBasics
 namespace BioCantor.Proofs
 open BioCantor BioCantor.Spec BioCantor.Model
 
-/-- F-C02c: the receiver has no parent, the argument is `EmptyLocation` and `match_strand=True`: the library
-    evaluates `EmptyLocation.strand` and raises. -/
-def EmptyArgQuirk (a b : PLoc) (ms : Bool) : Prop :=
-  a.1 ≠ .empty ∧ b.1 = .empty ∧ ms = true ∧ a.2 = []
-
-instance (a b : PLoc) (ms : Bool) : Decidable (EmptyArgQuirk a b ms) := by
-  unfold EmptyArgQuirk; infer_instance
-
 /-! ### `covX` in terms of block lists -/
 
 theorem covX_single (fs : Bool) (b : Blk) (s : Strand) (p : Nat) :
@@ -121,7 +113,8 @@ theorem gate_if (ms : Bool) (sa sb : Strand) (k : Bool) :
   rw [e]
   cases ms <;> by_cases hs : sa = sb <;> simp [hs] <;> rfl
 
-/-- `has_overlap` on parent-compatible operands, outside the F-C02c corner -/
+/-- `Model.hasOverlap` (Model/Location.lean, which still mirrors the code before the repair of F-C02c) outside the
+    corner where it raises; the repaired behaviour is `hasOverlapN_spec` below -/
 theorem hasOverlap_spec (x y : Location) (hx : WF x) (hy : WF y) (ms fs : Bool)
     (hq : ¬ (x ≠ .empty ∧ y = .empty ∧ ms = true)) :
     hasOverlap x y ms fs =
@@ -221,12 +214,33 @@ theorem hasOverlap_spec (x y : Location) (hx : WF x) (hy : WF y) (ms fs : Bool)
       simp only [hasOverlap, strandGate, strandEq, locationStrand?, hfull, hfull', ok_bind]
       first | exact gate_if _ _ _ _ | (simp only [gate_if]) 
 
+/-- `has_overlap` as the code is since the repair of F-C02c: no corner left -/
+theorem hasOverlapN_spec (x y : Location) (hx : WF x) (hy : WF y) (ms fs : Bool) :
+    hasOverlapN x y ms fs =
+      .ok (strandGate x y ms && anyUpTo (hiOf [x, y]) (fun p => covX fs x p && covX fs y p)) := by
+  by_cases hye : y = .empty
+  · subst hye
+    have : anyUpTo (hiOf [x, Location.empty]) (fun p => covX fs x p && covX fs .empty p) = false := by
+      rw [Bool.eq_false_iff]; intro h
+      obtain ⟨p, _, h1⟩ := (anyUpTo_cov fs x .empty).mp h
+      simp [covX_empty] at h1
+    rw [this, Bool.and_false]
+    rfl
+  · have : hasOverlapN x y ms fs = hasOverlap x y ms fs := by
+      cases y <;> first | rfl | exact absurd rfl hye
+    rw [this]
+    exact hasOverlap_spec x y hx hy ms fs (fun h => hye h.2.1)
+
+theorem hasOverlapN_of_ne (x y : Location) (ms fs : Bool) (h : y ≠ .empty) :
+    hasOverlapN x y ms fs = hasOverlap x y ms fs := by
+  cases y <;> first | rfl | exact absurd rfl h
+
 /-! ### with parents -/
 
 theorem active_eq (a b : PLoc) (ms : Bool) : active a b ms = (sameParent a.2 b.2 && strandGate a.1 b.1 ms) := rfl
 
 /-- the model's `has_overlap` in closed form (used by intersection / minus / contains as well) -/
-theorem hasOverlapP_eq (a b : PLoc) (ha : WFP a) (hb : WFP b) (ms fs : Bool) (hq : ¬ EmptyArgQuirk a b ms) :
+theorem hasOverlapP_eq (a b : PLoc) (ha : WFP a) (hb : WFP b) (ms fs : Bool) :
     hasOverlapP a b ms fs false = .ok (expectOverlap a b ms fs) := by
   unfold hasOverlapP expectOverlap
   simp only [Bool.false_eq_true, if_false]
@@ -241,30 +255,22 @@ theorem hasOverlapP_eq (a b : PLoc) (ha : WFP a) (hb : WFP b) (ms fs : Bool) (hq
   · rw [parentGate_eq, active_eq]
     have hdisp : (match a.1 with
         | .empty => (pure false : R Bool)
-        | _ => if (!sameParent a.2 b.2) = true then pure false else hasOverlap a.1 b.1 ms fs) =
-        (if (!sameParent a.2 b.2) = true then pure false else hasOverlap a.1 b.1 ms fs) := by
+        | _ => if (!sameParent a.2 b.2) = true then pure false else hasOverlapN a.1 b.1 ms fs) =
+        (if (!sameParent a.2 b.2) = true then pure false else hasOverlapN a.1 b.1 ms fs) := by
       cases h : a.1 <;> simp_all
     first | rw [hdisp] | skip
     cases hsp : sameParent a.2 b.2 with
     | false => simp; rfl
     | true =>
-      have hq' : ¬ (a.1 ≠ .empty ∧ b.1 = .empty ∧ ms = true) := by
-        rintro ⟨h1, h2, h3⟩
-        apply hq
-        refine ⟨h1, h2, h3, ?_⟩
-        have hb2 := hb.2.1 h2
-        rw [hb2, sameParent_nil_right] at hsp
-        simpa using hsp
       simp only [Bool.not_true, Bool.false_eq_true, if_false, Bool.true_and]
-      exact hasOverlap_spec a.1 b.1 ha.1 hb.1 ms fs hq'
+      exact hasOverlapN_spec a.1 b.1 ha.1 hb.1 ms fs
 
 /-- C02-T1 -/
-theorem hasOverlapP_ok (a b : PLoc) (ha : WFP a) (hb : WFP b) (ms fs strict : Bool)
-    (hq : ¬ EmptyArgQuirk a b ms) :
+theorem hasOverlapP_ok (a b : PLoc) (ha : WFP a) (hb : WFP b) (ms fs strict : Bool) :
     okOverlap a b ms fs strict (ans (hasOverlapP a b ms fs strict)) = true := by
   cases strict with
   | false =>
-    rw [hasOverlapP_eq a b ha hb ms fs hq]
+    rw [hasOverlapP_eq a b ha hb ms fs]
     simp [okOverlap]
   | true =>
     cases hsp : sameParent a.2 b.2 with
@@ -275,7 +281,7 @@ theorem hasOverlapP_ok (a b : PLoc) (ha : WFP a) (hb : WFP b) (ms fs strict : Bo
       have : hasOverlapP a b ms fs true = hasOverlapP a b ms fs false := by
         simp [hasOverlapP, requireParentsEq_eq, hsp]
         rfl
-      rw [this, hasOverlapP_eq a b ha hb ms fs hq]
+      rw [this, hasOverlapP_eq a b ha hb ms fs]
       simp [okOverlap, hsp]
 
 end BioCantor.Proofs
